@@ -1236,6 +1236,8 @@ func (nz *normalizer) hoistNested(p *packages.Package, f *ast.File, s ast.Stmt) 
 		if x.Init == nil && x.Tag != nil {
 			roots = append(roots, &x.Tag)
 		}
+	case *ast.RangeStmt:
+		roots = append(roots, &x.X) // the range expression is evaluated once, before the loop
 	default:
 		return nil, false
 	}
@@ -1264,6 +1266,12 @@ func (nz *normalizer) hoistNested(p *packages.Package, f *ast.File, s ast.Stmt) 
 				return false // a conversion is not a call
 			}
 			if walk(x.Fun, cond) {
+				return true
+			}
+			// calls among a helper call's own arguments are evaluated by the parameter binding of the inlined body,
+			// in the same order and immediately before it: they do not stand in the way
+			if h, _ := nz.calleeOf(p, x); h != nil {
+				first, conditional = x, cond
 				return true
 			}
 			for _, a := range x.Args {
